@@ -7,14 +7,14 @@
   `PBytes` in place of `Bytes`; the control flow is copied from there, the slice operations are read
   off the Go source (line numbers of the repaired tree):
 
-    h264_packet.go:109,116   p.spsNalu = append([]byte{}, nalu...)       `keep nalu`, keep = copy
+    h264_packet.go:110,116   p.spsNalu = append([]byte{}, nalu...)       `keep nalu`, keep = copy
     :122-132                 stapANalu := []byte{0x78}; append …         `make`, `append`
-    :134-136 / :149-151      out := make(..); copy(out, x)               `copy`
-    :139-141                 single.Payload(mtu, p.spsNalu)              `pPayloadNoStap` on the state slice
-    :181-201                 out := make(2+n); out[0],out[1]; copy(..)   `make`
-    :224-233 doPackaging     append(buf, hdr...); append(buf, nalu...)   `append`
-    :296-301                 p.fuaBuffer = []byte{}; append(p.fuaBuffer, payload[2:]...)
-    :306-310                 nalu := append([]byte{}, b); append(nalu, p.fuaBuffer...); p.fuaBuffer = nil
+    :134-136 / :150-152      out := make(..); copy(out, x)               `copy`
+    :140-141                 single.Payload(mtu, p.spsNalu)              `pPayloadNoStap` on the state slice
+    :182-203                 out := make(2+n); out[0],out[1]; copy(..)   `make`
+    :226-238 doPackaging     append(buf, hdr...); append(buf, nalu...)   `append`
+    :298-303                 p.fuaBuffer = []byte{}; append(p.fuaBuffer, payload[2:]...)
+    :309-311                 nalu := append([]byte{}, b); append(nalu, p.fuaBuffer...); p.fuaBuffer = nil
 
   The retention step is a parameter `keep` so that the code before the repair of DESIGN §7 row 8
   (`p.spsNalu = nalu`, `keep = id`) is the same transcription with one operation changed.
